@@ -274,17 +274,17 @@ Local Open Scope string_scope.
 
 (* Known holes: (module, prefix byte, class).  Hand-written; the table theorem says that every live
    prefix outside this list survives.
-   fixed: property=C20 PENDING class 1 (collector net fees exported as zero-valued records) - the row
+   fixed: property=C20 f97a387 class 1 (collector net fees exported as zero-valued records) - the row
           ("collector", 8) is gone: GetAllNetFeeCollectedData unmarshals the stored value;
-   fixed: property=C20 PENDING class 2 (auctionsV2 InitGenesis set the auction id and the user bid id
+   fixed: property=C20 52f646d class 2 (auctionsV2 InitGenesis set the auction id and the user bid id
           to 0 although both are exported) - the rows ("auctionsV2", 1 | 5) are gone;
-   fixed: property=C20 PENDING class 7 (auction V1 InitGenesis filled the lend dutch auctions from the
+   fixed: property=C20 043e2ee class 7 (auction V1 InitGenesis filled the lend dutch auctions from the
           DutchAuction field) - the row ("auction", 32) is gone;
    decided, not a defect: class 13 (esm kill switches imported through the validating
           SetKillSwitchData, InitGenesis returning on its error) - the rows ("esm", 4 | 5 | 7) are gone:
           the guard is harmless ([guard_harmless]: sole writer, validates against never-deleted
           asset apps, asset is initialised before esm);
-   fixed: property=C20 PENDING class 12 (collector lookup table imported through the validating
+   fixed: property=C20 17e806f class 12 (collector lookup table imported through the validating
           setter, InitGenesis returning on its error) - the rows ("collector", 3 | 1 | 5 | 7) are
           gone: InitGenesis stores the exported records with SetGenCollectorLookupTable. *)
 Definition known_holes : list (string * Z * Z) :=
